@@ -42,6 +42,10 @@ OWN = {
 }
 OWN["escape"] = 'taskreport zzz_esc "../zzz_escaped" {\n  formats json, csv\n  columns id, effort\n}\n'
 OWN["badname"] = 'taskreport zzz_bad "zzz:bad" {\n  formats csv\n  columns id\n}\n'
+# own reports whose id is part of every auto-report id ("plan_auto_<hex>") or that have no id at all, with a name the library
+# refuses: never asked for, so never generated
+OWN["planid"] = 'taskreport plan "Status: week 2" {\n  formats csv\n  columns id\n}\ntaskreport auto "auto?" {\n  formats json\n  columns id\n}\n'
+OWN["noid"] = 'taskreport "Status: week 2" {\n  formats csv\n  columns id\n}\n'
 OWN["subdir"] = ('taskreport zzz_sub "weekly/zzz_own" {\n  formats json, csv\n  columns id, effort\n'
                  '  taskreport zzz_deep "weekly/detail/zzz_tasks" {\n    formats csv\n    columns id\n  }\n}\n')
 TASK_IDS = ["a", "c", "c.b", "c.m", "c.d"]
